@@ -38,7 +38,7 @@ pub fn plan(prop: &str) -> Option<Plan> {
                 prop: "C01",
                 profile: p,
                 opts,
-                cases_quick: 48_000,
+                cases_quick: 400_000,
                 cases_thorough: 3_000_000,
                 rule: "random histories (proptest, 64 shards) after directed templates; non-trivial = at least one adoption or root replacement performed while the arena was Marking/Marked/Sweeping and the running cycle completed afterwards; distinct by hash of the history",
                 nontrivial: |c| c.cycle_completed_after_active_adopt,
@@ -56,7 +56,7 @@ pub fn plan(prop: &str) -> Option<Plan> {
                 prop: "C02",
                 profile: p,
                 opts,
-                cases_quick: 40_000,
+                cases_quick: 320_000,
                 cases_thorough: 2_000_000,
                 rule: "random histories biased to cyclic garbage, unlinking and weak edges, with Settle = finish_cycle x2 at generated points; non-trivial = a Settle whose garbage contains a cycle, an object allocated while not Sleeping, a weak-only target, or that began mid-cycle",
                 nontrivial: |c| c.settle_nontrivial > 0,
@@ -76,7 +76,7 @@ pub fn plan(prop: &str) -> Option<Plan> {
                 prop: "C03",
                 profile: p,
                 opts,
-                cases_quick: 40_000,
+                cases_quick: 320_000,
                 cases_thorough: 1_000_000,
                 rule: "random histories whose callbacks allocate unlinked temporaries early and touch them last, entered in every phase with natural and artificial debt up to 1e12; non-trivial = a callback entered with positive debt while not Sleeping that held >= 1 temporary",
                 nontrivial: |c| c.callbacks_with_debt_active_temps > 0,
@@ -95,7 +95,7 @@ pub fn plan(prop: &str) -> Option<Plan> {
                 prop: "C04",
                 profile: p,
                 opts,
-                cases_quick: 40_000,
+                cases_quick: 320_000,
                 cases_thorough: 2_000_000,
                 rule: "random histories ending in dropping the arena in whatever phase it is in (plus explicit DropArena steps), with shells, garbage and DSTs present; non-trivial = an arena dropped while not Sleeping or while holding at least one shell of a destructed object",
                 nontrivial: |c| c.arena_drop_phase[1] + c.arena_drop_phase[2] + c.arena_drop_phase[3] > 0 || c.arena_drop_with_shell > 0,
@@ -114,7 +114,7 @@ pub fn plan(prop: &str) -> Option<Plan> {
                 prop: "C05",
                 profile: p,
                 opts,
-                cases_quick: 48_000,
+                cases_quick: 400_000,
                 cases_thorough: 3_000_000,
                 rule: "random histories biased to weak edges, upgrade (optionally storing the result through an adoption path) and is_dropped in every phase, single-unit collector increments; non-trivial = a weak query while Sweeping on a live target that is only weakly reachable, or an upgrade-and-store while not Sleeping",
                 nontrivial: |c| c.weak_q_sweeping_weakonly > 0 || c.upgrade_store_active > 0,
@@ -135,7 +135,7 @@ pub fn plan(prop: &str) -> Option<Plan> {
                 prop: "C06",
                 profile: p,
                 opts,
-                cases_quick: 48_000,
+                cases_quick: 400_000,
                 cases_thorough: 3_000_000,
                 rule: "random histories in which every store goes through one of the adoption paths (path id = projection / setter / barrier variant / root path / stash), with single-unit increments arranging parent and child colours; non-trivial = an adoption while Marking/Marked/Sweeping with the cycle completed afterwards; the evidence lists the covered (path, phase, parent colour, child colour) cells",
                 nontrivial: |c| c.cycle_completed_after_active_adopt,
@@ -153,7 +153,7 @@ pub fn plan(prop: &str) -> Option<Plan> {
                 prop: "C07",
                 profile: p,
                 opts,
-                cases_quick: 40_000,
+                cases_quick: 320_000,
                 cases_thorough: 2_000_000,
                 rule: "random histories with finalize callbacks (is_dead scan at callback start, resurrect through weak and strong pointers) after incremental marking and interleaved mutation; non-trivial = a dead, undestructed object with children was resurrected, or a finalize ran after mutation in the same cycle",
                 nontrivial: |c| c.resurrect_dead_with_child > 0 || c.finalize_after_mutation > 0,
@@ -172,7 +172,7 @@ pub fn plan(prop: &str) -> Option<Plan> {
                 prop: "C08",
                 profile: p,
                 opts,
-                cases_quick: 40_000,
+                cases_quick: 320_000,
                 cases_thorough: 1_000_000,
                 rule: "random API call sequences from every phase with zero / tiny / natural / huge debt and all pacing presets; non-trivial = the history made at least two collection calls that began in a phase other than Sleeping; the evidence lists the covered (phase, api, debt class) triples",
                 nontrivial: |c| c.c08.iter().filter(|(k, _)| k.0 != 0).map(|(_, v)| *v).sum::<u32>() >= 2,
@@ -207,7 +207,7 @@ pub fn plan(prop: &str) -> Option<Plan> {
                 prop: "C09",
                 profile: p,
                 opts: ExecOpts { c09: true, hook: true, ..Default::default() },
-                cases_quick: 24_000,
+                cases_quick: 48_000,
                 cases_thorough: 1_000_000,
                 rule: "random histories with allocation bursts of 0-300 objects between natural (never artificially reduced) debt-driven calls under all pacing presets; non-trivial = a tracked cycle that needed >= 3 calls, or a sleep allowance crossed from below",
                 nontrivial: |c| c.c09_multi_call_cycles > 0 || c.c09_sleep_crossed > 0,
@@ -228,7 +228,7 @@ pub fn plan(prop: &str) -> Option<Plan> {
                 prop: "C10",
                 profile: p,
                 opts,
-                cases_quick: 40_000,
+                cases_quick: 320_000,
                 cases_thorough: 2_000_000,
                 rule: "random histories with barriers of every variant on tracing and non-tracing objects in every phase, adjust_debt of both signs up to 1e12 and trace panics; run in the release-like and the overflow-checking build; non-trivial = a barrier applied to a fully traced (black) object while Marking/Marked",
                 nontrivial: |c| c.barrier_black_tracing + c.barrier_black_nontracing > 0,
@@ -248,7 +248,7 @@ pub fn plan(prop: &str) -> Option<Plan> {
                 prop: "C11",
                 profile: p,
                 opts,
-                cases_quick: 40_000,
+                cases_quick: 320_000,
                 cases_thorough: 2_000_000,
                 rule: "random histories with injected faults: trace panic at the k-th trace call (k up to 24, repeatedly), callback panic after every op index for every callback kind, failing and panicking constructors and map_root; the C01-C05 oracles keep running on the continued history; non-trivial = a fault was injected and the arena was used again afterwards",
                 nontrivial: |c| c.faults_trace + c.faults_callback + c.faults_ctor > 0 && c.used_after_fault > 0,
@@ -269,7 +269,7 @@ pub fn plan(prop: &str) -> Option<Plan> {
                 prop: "C14",
                 profile: p,
                 opts,
-                cases_quick: 40_000,
+                cases_quick: 320_000,
                 cases_thorough: 2_000_000,
                 rule: "random histories over several root sets, arenas and handles (stash in every phase, clone, drop in any order, fetch with own / foreign / dead handles); non-trivial = a slot was reused while another handle of the set was alive, or a stash happened while the arena was not Sleeping",
                 nontrivial: |c| c.slot_reuse_live > 0 || c.stash_active > 0,
@@ -287,7 +287,7 @@ pub fn plan(prop: &str) -> Option<Plan> {
                 prop: "C19",
                 profile: p,
                 opts,
-                cases_quick: 24_000,
+                cases_quick: 200_000,
                 cases_thorough: 1_000_000,
                 rule: "random histories with conversion chains (erase, downgrade/upgrade, as_ptr/from_ptr, thin/fat, unsize!, erase_kind, weak unsize) whose result is stored and later is the only pointer kept; non-trivial = a conversion was performed and a collection cycle completed in the same history",
                 nontrivial: |c| c.convert_ops > 0 && c.cycles_completed > 0,
@@ -307,7 +307,7 @@ pub fn plan(prop: &str) -> Option<Plan> {
                 prop: "C20",
                 profile: p,
                 opts,
-                cases_quick: 32_000,
+                cases_quick: 256_000,
                 cases_thorough: 1_000_000,
                 rule: "random histories interleaving steps on up to three arenas with different pacing, dropping one while others are mid-cycle, presenting foreign handles; after every step the phase, Gc count and debt of every other arena must be bit-identical; non-trivial = a step on one arena while another was Marking/Marked/Sweeping",
                 nontrivial: |c| c.other_arena_active > 0,
